@@ -129,6 +129,30 @@ func c12One(run *hx.Run, data []byte, o op, pi int, dbname string, maxR int64) {
 				run.Violation("C12/lock-failure/"+o.kind, fmt.Sprintf("%s: RLock failed but the operation returned err=%v with %d rows", o.name, res.err, len(res.rows)), nil)
 			}
 			run.Count("lock_failure_runs", 1)
+			// a warm handle (caches filled by a successful run) that is refused the lock several times in a row:
+			// every refused call reports the failure; once the lock is granted again the result is the reference
+			p2 := hx.NewMemPager(data)
+			if h2, err := openMem(p2); err == nil && ref.err == nil {
+				o.run(h2, 0)
+				p2.LockErr = errors.New("verif: lock refused")
+				for attempt := 1; attempt <= 3; attempt++ {
+					r := o.run(h2, 0)
+					run.Eval(1)
+					if r.err == nil || len(r.rows) > 0 {
+						run.Violation("C12/lock-failure-repeated/"+o.kind, fmt.Sprintf("%s: the lock was refused %d times in a row on one handle; call %d returned err=%v with %d rows", o.name, attempt, attempt, r.err, len(r.rows)), nil)
+						break
+					}
+				}
+				p2.LockErr = nil
+				r := o.run(h2, 0)
+				run.Eval(1)
+				if r.panicMsg != "" || r.err != nil || !sameRows(r.rows, ref.rows) {
+					run.Violation("C12/after-lock-failure/"+o.kind, fmt.Sprintf("%s: after refused locks the next call on the handle returns err=%v, %d rows (reference %d rows) %s", o.name, r.err, len(r.rows), len(ref.rows), firstLines(r.panicMsg, 1)), nil)
+				}
+				if p2.Locked {
+					run.Violation("C12/lock-failure-repeated/lock-held/"+o.kind, o.name+": lock held after the calls returned", nil)
+				}
+			}
 		}
 	}
 	step := int64(1)
